@@ -17,6 +17,7 @@ def run(ctx):
     meta, errors = _ir.regenerate(ctx)
     ok, log = ctx.build_props()
     if ok:
+        _ir.nonvacuity(ctx, meta)
         _ir.check_programs(ctx, meta, ['Analysis.Distinct'], 'c07_check', None, 'aliasing / population size', 'C07_ir')
     ctx.cov['rule'] = ('theorem for every IR program, every oracle/objective/box/iteration count; T2 aborts on aliasing; run monitor: '
                        'len(agents), shapes and pairwise np.shares_memory at every hook and at return, poke test at return')
